@@ -142,6 +142,8 @@ func VpC09Macros() {
 		"SecAction \"id:1,phase:1,pass,setvar:tx.b=B1,setvar:tx.a=%{tx.b},setvar:tx.b=B2,setvar:tx.c=%{tx.b}\"\n" +
 		"SecRule ARGS \"@rx ^[xy]$\" \"id:2,phase:1,pass,setvar:tx.m_%{matched_var}=+1,setvar:tx.last=%{matched_var_name},setvar:tx.rid=%{rule.id}\"\n" +
 		"SecAction \"id:3,phase:1,pass,setvar:tx.d=1,setvar:!tx.d,setvar:tx.e=%{tx.d}\"\n" +
+		// deletion through a key built from a macro
+		"SecAction \"id:5,phase:1,pass,setvar:tx.kn=x,setvar:tx.k_x=1,setvar:tx.k_y=1,setvar:!tx.k_%{tx.kn}\"\n" +
 		// arithmetic with macro operands, including a negative one and a zero
 		"SecAction \"id:4,phase:1,pass,setvar:tx.neg=-4,setvar:tx.zero=0,setvar:tx.p=10,setvar:tx.p=+%{tx.neg},setvar:tx.q=10,setvar:tx.q=-%{tx.neg},setvar:tx.r=10,setvar:tx.r=+%{tx.zero},setvar:tx.t=-3,setvar:tx.t=+5,setvar:tx.u=5,setvar:tx.u=%{tx.neg}\"\n"
 	waf := vpBuild("c09macros", conf)
@@ -183,6 +185,7 @@ func VpC09Macros() {
 	// an assignment stays an assignment whatever the macro expands to
 	vp.Assert(get("u") == "-4", "setvar:tx.u=%{tx.neg} with tx.neg=-4 did not assign the value (it was applied as a decrement)")
 	vp.Assert(get("d") == "<unset>", "setvar:!tx.d did not delete the variable")
+	vp.Assert(get("k_x") == "<unset>" && get("k_y") == "1", "setvar:!tx.k_%{tx.kn} did not delete exactly the variable its expanded key names")
 	vp.Assert(get("e") != "1", "macro naming a deleted variable expanded to the stale value")
 	tx.ProcessLogging()
 	_ = tx.Close()
